@@ -78,6 +78,21 @@ class Ctx:
         self._n += 1
         return os.path.join(self.scratch, f"{tag}{self._n}")
 
+    def via_symlink(self, path):
+        """another spelling of the directory `path` = D/name: S/lnk/../name where S/lnk is a symbolic link to a directory
+        inside D (the operating system resolves `lnk/..` to D; collapsing the `..` as text gives S/name, which does not exist)"""
+        d, name = os.path.split(os.path.normpath(path))
+        self._n += 1
+        t = os.path.join(d, f".deep{self._n}"); os.makedirs(t, exist_ok=True)
+        s = os.path.join(self.scratch, f"lnk{self._n}"); os.makedirs(s)
+        os.symlink(t, os.path.join(s, "lnk"))
+        return os.path.join(s, "lnk", "..", name)
+
+    def long_dir(self, tag="long"):
+        """a fresh directory whose path is more than 160 characters long"""
+        self._n += 1
+        return os.path.join(self.scratch, f"{tag}{self._n}", "a_directory_name_of_some_length_" * 2, "and_another_one_below_it_" * 2, "plt00010")
+
     def cleanup(self):
         shutil.rmtree(self.scratch, ignore_errors=True)
 
